@@ -286,7 +286,7 @@ theorem prog_semF : ∀ (p : List Stmt) (T : List FEntry) (s s' : St), fragP (tn
           have ho1 : o1 = .normal := (outRel_normal hor1).mpr rfl
           subst ho1
           obtain ⟨hinv1, hctl, _⟩ := hk (fun k => by simp)
-          have hsame := (funsOK f1).execS (tnames T) st c .normal c1 (Or.inr hfs) hs1 (fun k => by simp)
+          have hsame := (funsOK f1).execS (tnames T) st c .normal c1 (Or.inr (fragS_nd _ _ hfs)) hs1 (fun k => by simp)
           have hi1 : TopInv T c1 m1 := by
             refine ⟨?_, by rw [hsame.1]; exact hi.sfuns, by rw [hctl.2.2]; exact hi.mfuns⟩
             have := hinv1.agree
